@@ -2,7 +2,7 @@
    an authentic datagram against the real AES-GCM, and the byte-level Wire.from_bytes for a key
    holder (the decryption itself is answered by the harness with the real library). *)
 From RecordUpdate Require Import RecordUpdate.
-From Model Require Import Base SeqNum Wire Conn RecvSpec.
+From Model Require Import Base SeqNum Wire Conn RecvSpec RecvHist.
 From Extract Require Import U_Conn.
 Import RecordSetNotations.
 Open Scope Z_scope.
@@ -37,11 +37,34 @@ Definition u_prekey_gate (v : V) : V :=
   let d := dgram_of_V (vnth v 1) in
   VL [vbool (keyless_refuses c (d_hdr d)); VI (ptype_code (expected_hello c))].
 
+(* UNIT 410 w_flags : [nb; history of true indices] -> duplicate flags of the abstract window
+   started empty, and the indices it accepts *)
+Definition u_w_flags (v : V) : V :=
+  let nb := as_int (vnth v 0) in
+  let h := map as_int (as_list (vnth v 1)) in
+  let f := w_hist nb None h in
+  VL [VL (map vbool f); VL (map VI (fresh_of f h))].
+
+(* UNIT 412 conn_run_seq : conn_run with the sender's counters preset:
+   [env; [server; key; status; now0; seq_sending; seq_message]; events; snapshot_every] *)
+Definition u_conn_run_seq (v : V) : V :=
+  let e := env_of_V (vnth v 0) in
+  let i := vnth v 1 in
+  let k := as_int (vnth i 1) in
+  let c := (conn0 (as_bool (vnth i 0)))
+             <| c_key := if k =? -1 then None else Some k |>
+             <| c_status := status_of_Z (as_int (vnth i 2)) |>
+             <| c_seq_send := as_int (vnth i 4) |> <| c_seq_msg := as_int (vnth i 5) |> in
+  let c := if as_int (vnth i 3) =? -1 then c else c <| c_last_recv := as_int (vnth i 3) |> in
+  VL (run_snap e c (as_list (vnth v 2)) (as_bool (vnth v 3))).
+
 Definition dispatch_recv (u : Z) (v : V) : option V :=
   match u with
   | 401 => Some (u_recv_auth v)
   | 403 => Some (u_sealed_slices v)
   | 404 => Some (u_sealed_parse v)
   | 405 => Some (u_prekey_gate v)
+  | 410 => Some (u_w_flags v)
+  | 412 => Some (u_conn_run_seq v)
   | _ => None
   end.
